@@ -14,6 +14,7 @@ import (
 	"runtime"
 	"strconv"
 	"strings"
+	"sync"
 	"time"
 
 	"bngverif/hx"
@@ -102,6 +103,36 @@ func randSeq(r *rand.Rand, n int) []string {
 			seq = append(seq, "pools")
 		case x < 84:
 			seq = append(seq, fmt.Sprintf("addip p%d", 1+r.Intn(ips)))
+		case x < 90:
+			// a stretch during which the logger is not flushed after each call, usually with a flush parked
+			// inside its first Write while calls go on (the background flushLoop on a slow log file)
+			seq = append(seq, "buffer")
+			calls := 0
+			some := func(n int) {
+				for ; n > 0 && calls < 30; n-- {
+					calls++
+					if r.Intn(3) > 0 {
+						seq = append(seq, "alloc "+k())
+					} else {
+						seq = append(seq, "dealloc "+k())
+					}
+				}
+			}
+			some(r.Intn(5))
+			for rounds := r.Intn(3); rounds > 0; rounds-- {
+				seq = append(seq, "flushhold")
+				some(1 + r.Intn(5))
+				if r.Intn(4) == 0 && calls < 26 {
+					seq = append(seq, "hold", "spawn alloc "+k(), "spawn dealloc "+k(), "unhold")
+					calls += 2
+				}
+				if rounds > 1 {
+					seq = append(seq, "flushrelease", "buffer")
+					calls = 0
+					some(r.Intn(4))
+				}
+			}
+			seq = append(seq, "flushrelease")
 		default:
 			seq = append(seq, "hold")
 			for m := 1 + r.Intn(4); m > 0; m-- {
@@ -189,6 +220,36 @@ func windows(emit func([]string)) {
 	}
 }
 
+// flushWindows enumerates calls landing while a flush of the log is in flight: b calls buffered before the flush
+// starts (the batch), then every sequence of 1..3 calls from a small alphabet during the flush, in both formats.
+func flushWindows(emit func([]string)) {
+	during := []string{"alloc k4", "alloc k5", "dealloc k1", "dealloc k2", "alloc k1"}
+	before := [][]string{{}, {"alloc k1"}, {"alloc k1", "alloc k2"}, {"alloc k1", "alloc k2", "alloc k3"},
+		{"alloc k1", "alloc k2", "dealloc k1", "alloc k3"}}
+	for _, mode := range []string{"bulk", "trad"} {
+		for _, pre := range before {
+			var rec func(cur []string, d int)
+			rec = func(cur []string, d int) {
+				if len(cur) > 0 {
+					seq := []string{newOp(cfg{1000, 10000, 14999}, mode), "addip p1", "buffer"}
+					seq = append(seq, pre...)
+					seq = append(seq, "flushhold")
+					seq = append(seq, cur...)
+					seq = append(seq, "flushrelease", "get k1", "get k2", "get k3", "get k4", "get k5", "alloc k6", "pools")
+					emit(seq)
+				}
+				if d == 0 {
+					return
+				}
+				for _, c := range during {
+					rec(append(cur[:len(cur):len(cur)], c), d-1)
+				}
+			}
+			rec(nil, 3)
+		}
+	}
+}
+
 func (comp) Gen(r *rand.Rand, tier string, emit func([]string)) {
 	nShort, nLong := 2500, 40
 	if tier == "thorough" {
@@ -201,6 +262,7 @@ func (comp) Gen(r *rand.Rand, tier string, emit func([]string)) {
 		emit(randSeq(r, 300+r.Intn(500)))
 	}
 	windows(emit)
+	flushWindows(emit)
 	// truly concurrent callers (no placement): only the final table and the log are observed, judged by the monitor
 	nStress := 40
 	if tier == "thorough" {
@@ -240,18 +302,62 @@ type task struct {
 	done chan string
 }
 
-type run struct {
-	m       *nat.Manager
-	l       *nat.Logger
+// stallWriter is the logger's output.  When armed, the next Write records its data and then parks until
+// released: a flush of the NAT log is then "in flight" (its batch taken, one record written) while the
+// harness goes on allocating and releasing -- what the background flushLoop does with a slow log file.
+type stallWriter struct {
+	mu      sync.Mutex
 	buf     bytes.Buffer
-	held    bool
-	pending []*task
-	lastTS  time.Time
+	armed   bool
+	inWrite chan struct{}
+	resume  chan struct{}
+}
+
+func (w *stallWriter) Write(p []byte) (int, error) {
+	w.mu.Lock()
+	w.buf.Write(p)
+	park := w.armed
+	w.armed = false
+	w.mu.Unlock()
+	if park {
+		close(w.inWrite)
+		<-w.resume
+	}
+	return len(p), nil
+}
+
+func (w *stallWriter) take() string {
+	w.mu.Lock()
+	defer w.mu.Unlock()
+	s := w.buf.String()
+	w.buf.Reset()
+	return s
+}
+
+// at most this many calls between `buffer` and `flushrelease`: the logger flushes by itself (and would block on
+// the parked flush) when 50 port-block records are buffered
+const maxBufCalls = 40
+
+type run struct {
+	m         *nat.Manager
+	l         *nat.Logger
+	w         stallWriter
+	buffering bool          // no flush after each call
+	flushDone chan struct{} // a parked flush is in flight
+	bufCalls  int
+	held      bool
+	pending   []*task
+	lastTS    time.Time
 }
 
 func (comp) NewRun() hx.Run { return &run{} }
 
 func (r *run) Close() {
+	if r.flushDone != nil {
+		close(r.w.resume)
+		<-r.flushDone
+		r.flushDone = nil
+	}
 	if r.held {
 		r.m.ReleasePoolForVerif()
 		for _, t := range r.pending {
@@ -296,13 +402,12 @@ type rec struct {
 
 // logSuffix flushes the logger and renders the records written since the last call
 func (r *run) logSuffix() string {
-	if r.l == nil {
+	if r.l == nil || r.buffering {
 		return ""
 	}
 	r.l.Flush()
 	r.l.FlushPortBlocks()
-	data := r.buf.String()
-	r.buf.Reset()
+	data := r.w.take()
 	var out []string
 	back := false
 	for _, line := range strings.Split(data, "\n") {
@@ -496,11 +601,11 @@ func (r *run) Do(op string) string {
 		r.m = m
 		if f[4] == "bulk" || f[4] == "trad" {
 			l, err := nat.NewLogger(nat.LoggerConfig{Enabled: true, Format: nat.LogFormatJSON,
-				BulkLogging: f[4] == "bulk", BufferSize: 50}, zap.NewNop())
+				BulkLogging: f[4] == "bulk", BufferSize: 500}, zap.NewNop())
 			if err != nil {
 				return "error " + err.Error()
 			}
-			l.SetWriterForVerif(&r.buf)
+			l.SetWriterForVerif(&r.w)
 			r.l = l
 			m.SetLogger(l)
 		} else if f[4] != "off" {
@@ -514,6 +619,24 @@ func (r *run) Do(op string) string {
 	needsPool := map[string]bool{"addip": true, "alloc": true, "dealloc": true, "pools": true, "stress": true}
 	if r.held && needsPool[f[0]] {
 		return "badop" // would deadlock on the lock the harness holds
+	}
+	if r.buffering {
+		switch f[0] {
+		case "stress":
+			return "badop"
+		case "alloc", "dealloc":
+			if r.bufCalls >= maxBufCalls {
+				return "badop"
+			}
+			r.bufCalls++
+		case "spawn":
+			if r.held {
+				if r.bufCalls >= maxBufCalls {
+					return "badop"
+				}
+				r.bufCalls++
+			}
+		}
 	}
 	switch {
 	case f[0] == "addip" && len(f) == 2:
@@ -545,6 +668,60 @@ func (r *run) Do(op string) string {
 			return "-"
 		}
 		return strings.Join(parts, ",")
+	case f[0] == "buffer" && len(f) == 1:
+		if r.buffering || r.held {
+			return "badop"
+		}
+		r.logSuffix() // nothing is pending: every call so far was followed by a flush
+		r.buffering = true
+		r.bufCalls = 0
+		return "ok"
+	case f[0] == "flushhold" && len(f) == 1:
+		if !r.buffering || r.flushDone != nil || r.held {
+			return "badop"
+		}
+		if r.l == nil {
+			return "idle"
+		}
+		r.w.mu.Lock()
+		r.w.armed = true
+		r.w.inWrite = make(chan struct{})
+		r.w.resume = make(chan struct{})
+		r.w.mu.Unlock()
+		done := make(chan struct{})
+		go func() {
+			r.l.Flush()
+			r.l.FlushPortBlocks()
+			close(done)
+		}()
+		select {
+		case <-r.w.inWrite:
+			r.flushDone = done
+			return "held"
+		case <-done:
+			r.w.mu.Lock()
+			r.w.armed = false
+			r.w.mu.Unlock()
+			return "idle"
+		case <-time.After(10 * time.Second):
+			return "stuck"
+		}
+	case f[0] == "flushrelease" && len(f) == 1:
+		if !r.buffering || r.held {
+			return "badop"
+		}
+		if r.flushDone != nil {
+			close(r.w.resume)
+			select {
+			case <-r.flushDone:
+			case <-time.After(10 * time.Second):
+				return "hang"
+			}
+			r.flushDone = nil
+		}
+		r.buffering = false
+		r.bufCalls = 0
+		return "ok" + r.logSuffix()
 	case f[0] == "stress" && len(f) == 5:
 		return r.stress(f)
 	case f[0] == "hold":
